@@ -49,6 +49,16 @@ class OrderedSet:
         return bool(self._l)
 
     def __contains__(self, x):
+        # fast, exact path for sets of single characters (first_chars in _parse_attribute_name):
+        # one substring constraint instead of a 53-way fork
+        if isinstance(x, str) and len(self._l) > 8:
+            with_chars = True
+            for y in self._l:
+                if not (isinstance(y, str) and len(y) == 1):
+                    with_chars = False
+                    break
+            if with_chars:
+                return len(x) == 1 and x in "".join(self._l)
         return any(x == y for y in self._l)
 
     def __and__(self, other):
